@@ -26,8 +26,11 @@ type Ctx struct {
 	Tier           string
 	Prop           string
 
-	lockCache  *lockInfo
-	rolesCache *atpRoles
+	lockCache      *lockInfo
+	refDerivedMemo map[*ssa.Function]map[ssa.Value]bool
+	refusalHelpers map[*ssa.Function]bool
+	entryMarks     map[*ssa.Function]*entrySection
+	rolesCache     *atpRoles
 }
 
 // PropSpec describes how a property is decided.
@@ -61,8 +64,10 @@ func (c *Ctx) fn(rule, key string) *ssa.Function {
 	f := c.M.FuncByKey[key]
 	if f == nil {
 		c.R.Unresolved(rule, "function "+key)
+		return nil
 	}
-	return f
+	// the body, if the function only hands over to a worker (an entry/worker pair)
+	return trampolineOf(c.M, f)
 }
 
 func key(parts ...string) string { return strings.Join(parts, " | ") }
